@@ -1395,6 +1395,47 @@ fn run_case(c: &Case) -> String {
                                     out(&mut buf, &format!("SKIPRUN DIFFERENT {verdict} calls={calls2} main={main_calls}"));
                                 }
                             }
+                            // ... and so are by_ref().take(k), size_hint(), fold() and last(): same items, same calls
+                            if c.seed % 5 >= 2 && c.seed % 5 <= 3 && buf.lines().any(|l| l == "END none")
+                                && (c.cont || !buf.lines().any(|l| l.starts_with("ITEM err") || l.starts_with("NEW err")))
+                            {
+                                let main_items: Vec<String> = buf
+                                    .lines()
+                                    .filter(|l| l.starts_with("ROW ") || l.starts_with("ITEM "))
+                                    .map(|l| l.to_string())
+                                    .collect();
+                                let main_call_lines: Vec<String> =
+                                    buf.lines().filter(|l| l.starts_with("CALL ")).map(|l| l.to_string()).collect();
+                                verif_hooks::set_seed_override(Some(c.seed));
+                                let sh2 = Sh::default();
+                                let verdict = catch_unwind(AssertUnwindSafe(|| {
+                                    if c.wdefault {
+                                        adapt_check(c, &tc, &mut DriverDefaultW(Script::new(c, &tc.signals, sh2.clone())), &main_items)
+                                    } else {
+                                        adapt_check(c, &tc, &mut DriverOverrideW(Script::new(c, &tc.signals, sh2.clone())), &main_items)
+                                    }
+                                }))
+                                .unwrap_or_else(|_| "PANIC".to_string());
+                                let _ = verif_hooks::take_rng_log();
+                                let verdict = if verdict.is_empty() {
+                                    let log = &sh2.borrow().log;
+                                    if log.len() != main_call_lines.len() {
+                                        format!("{} calls vs {}", log.len(), main_call_lines.len())
+                                    } else {
+                                        match log.iter().zip(main_call_lines.iter()).position(|(a, b)| a != b) {
+                                            Some(i) => format!("call {i} differs: [{:.60}] vs [{:.60}]", log[i], main_call_lines[i]),
+                                            None => verdict,
+                                        }
+                                    }
+                                } else {
+                                    verdict
+                                };
+                                if verdict.is_empty() {
+                                    out(&mut buf, "ADAPT same");
+                                } else {
+                                    out(&mut buf, &format!("ADAPT DIFFERENT {verdict}"));
+                                }
+                            }
                         }
                         "static" => run_static(c, &tc, &mut buf),
                         "multi" => run_multi(c, &tc, &mut buf),
@@ -1407,6 +1448,57 @@ fn run_case(c: &Case) -> String {
     }
     out(&mut buf, &format!("DONE {}", c.id));
     buf
+}
+
+/// The run again through `Iterator`'s provided methods (seed % 5 == 2: `size_hint` before every item and the first
+/// items through `by_ref().take(k)`; == 3: `fold`, then a second iterator's `last()` is not used because it would
+/// double the calls - `fold` visits every item): the items must be those of the plain run.  "" = same.
+fn adapt_check<D: TestDriver<Error = DrvError>>(c: &Case, tc: &TestCase, driver: &mut D, main_items: &[String]) -> String {
+    let line = |item: Result<digital_test_runner::DataRow<'_>, digital_test_runner::errors::IterationError<DrvError>>| match item {
+        Ok(row) => row_line(&row),
+        Err(e) => format!("ITEM err {}", iteration_err_s(&e, |d: &DrvError| d.0)),
+    };
+    let mut got: Vec<String> = vec![];
+    let mut problem = String::new();
+    let Ok(mut it) = tc.try_iter(driver) else { return "constructor failed".to_string() };
+    if c.seed % 5 == 2 {
+        let k = (c.seed as usize / 5) % 4;
+        for item in it.by_ref().take(k) {
+            got.push(line(item));
+        }
+        loop {
+            let (lo, hi) = it.size_hint();
+            let remaining = main_items.len().saturating_sub(got.len());
+            if (lo > remaining || hi.map_or(false, |h| h < remaining)) && problem.is_empty() {
+                problem = format!("size_hint ({lo}, {hi:?}) with {remaining} items to come");
+            }
+            match it.next() {
+                None => break,
+                Some(item) => got.push(line(item)),
+            }
+            if got.len() > main_items.len() + 2 {
+                break;
+            }
+        }
+    } else {
+        let limit = main_items.len() + 2;
+        got = it.fold(Vec::new(), |mut acc, item| {
+            if acc.len() < limit {
+                acc.push(line(item));
+            }
+            acc
+        });
+    }
+    if !problem.is_empty() {
+        return problem;
+    }
+    if got.len() != main_items.len() {
+        return format!("{} items vs {}", got.len(), main_items.len());
+    }
+    match got.iter().zip(main_items.iter()).position(|(a, b)| a != b) {
+        Some(i) => format!("item {i}: [{:.60}] vs [{:.60}]", got[i], main_items[i]),
+        None => String::new(),
+    }
 }
 
 fn install_hook() {
